@@ -32,6 +32,25 @@ Section Generic5.
   Lemma lenN_len (bs : bytes) : lenN bs = N.of_nat (length bs).
   Proof. reflexivity. Qed.
 
+  Lemma scost_tag : forall l c z, scost F l (set_tag c z) = scost F l c.
+  Proof.
+    induction l as [| f p | a IHa b IHb | g a IHa b IHb | f a IHa b IHb | f o a IHa | f lim | p k | f p a IHa | k a IHa b IHb | ]; intros c z;
+      cbn [scost]; try reflexivity; try (rewrite ?IHa, ?IHb; reflexivity).
+    rewrite eval_guard_tag. destruct (eval_guard g c); [apply IHa | apply IHb].
+  Qed.
+  Lemma kcost_tag : forall l c z, kcost F ka l (set_tag c z) = kcost F ka l c.
+  Proof.
+    induction l as [| f p | a IHa b IHb | g a IHa b IHb | f a IHa b IHb | f o a IHa | f lim | p k | f p a IHa | k a IHa b IHb | ]; intros c z;
+      cbn [kcost]; try reflexivity; try (rewrite ?IHa, ?IHb, ?scost_tag; reflexivity).
+    rewrite eval_guard_tag. destruct (eval_guard g c); [apply IHa | apply IHb].
+  Qed.
+  Lemma ucost_tag : forall l c z, ucost F l (set_tag c z) = ucost F l c.
+  Proof.
+    induction l as [| f p | a IHa b IHb | g a IHa b IHb | f a IHa b IHb | f o a IHa | f lim | p k | f p a IHa | k a IHa b IHb | ]; intros c z;
+      cbn [ucost]; try reflexivity; try (rewrite ?IHa, ?IHb, ?scost_tag; reflexivity).
+    rewrite eval_guard_tag. destruct (eval_guard g c); [apply IHa | apply IHb].
+  Qed.
+
   (* ---------- termination ---------- *)
   Lemma dec_many_no_fuel : forall (d : bytes -> dres),
     (forall bs al v rest, d bs = (al, Ok (v, rest)) -> (length rest < length bs)%nat) ->
@@ -48,7 +67,7 @@ Section Generic5.
   Theorem dec_T_terminates : forall l c bs, wf F l c = true -> dec_L F l c bs <> Err EFuel.
   Proof.
     unfold dec_L.
-    induction l as [| f p | a IHa b IHb | g a IHa b IHb | f a IHa b IHb | f o a IHa | f lim | p k];
+    induction l as [| f p | a IHa b IHb | g a IHa b IHb | f a IHa b IHb | f o a IHa | f lim | p k | f p a IHa | k a IHa b IHb | ];
       intros c bs W; cbn [dec_T wf] in *.
     - cbn. discriminate.
     - cbn [snd]. pose proof (ok_prim_nofuel F ka OKA p bs) as H.
@@ -77,6 +96,12 @@ Section Generic5.
     - destruct (match lim with Some m => m <? lenN bs | None => false end); cbn; discriminate.
     - cbn [snd]. pose proof (ok_prim_nofuel F ka OKA p bs) as H.
       destruct (dec_prim F p bs) as [[x r]|e]; [discriminate | congruence].
+    - pose proof (ok_prim_nofuel F ka OKA p bs) as H.
+      destruct (dec_prim F p bs) as [[[z| |] r0]|e]; try (cbn; discriminate); [|cbn [snd]; congruence].
+      specialize (IHa (set_tag c z) r0). rewrite (wf_tag F) in IHa. specialize (IHa W).
+      destruct (dec_T F a (set_tag c z) r0) as [n [[x r]|e]]; [cbn; discriminate | exact IHa].
+    - apply andb_true_iff in W as [Wa Wb]. destruct (ctag c =? k)%Z; [apply IHa | apply IHb]; assumption.
+    - cbn. discriminate.
   Qed.
 
   (* ---------- allocation ---------- *)
@@ -118,7 +143,7 @@ Section Generic5.
   Theorem dec_T_alloc_both : forall l c bs, wf F l c = true -> bound_any l c bs /\ bound_succ l c bs.
   Proof.
     unfold bound_any, bound_succ.
-    induction l as [| f p | a IHa b IHb | g a IHa b IHb | f a IHa b IHb | f o a IHa | f lim | p k];
+    induction l as [| f p | a IHa b IHb | g a IHa b IHb | f a IHa b IHb | f o a IHa | f lim | p k | f p a IHa | k a IHa b IHb | ];
       intros c bs W; cbn [dec_T wf kcost scost ucost] in *.
     - cbn [fst snd]. split; [apply N.le_0_l|]. intros; apply N.le_0_l.
     - cbn [fst snd]. split; [apply (ok_alloc_any F ka OKA)|].
@@ -190,6 +215,24 @@ Section Generic5.
     - cbn [fst snd]. split; [apply (ok_alloc_any F ka OKA)|].
       intros v rest H. destruct (dec_prim F p bs) as [[x r]|e] eqn:E; [|discriminate]. inversion H; subst.
       pose proof (ok_alloc_succ F ka OKA p bs x rest E). lia.
+    - pose proof (ok_alloc_any F ka OKA p bs) as PA.
+      destruct (dec_prim F p bs) as [[[z| |] r0]|e] eqn:E; cbn [fst snd];
+        try (split; [nia | intros; discriminate]).
+      pose proof (ok_alloc_succ F ka OKA p bs _ r0 E) as PS.
+      pose proof (ok_prim_min F dom OK p bs _ r0 E) as PM.
+      assert (L0 : lenN r0 <= lenN bs) by (unfold lenN; lia).
+      specialize (IHa (set_tag c z) r0). rewrite (wf_tag F), kcost_tag, ucost_tag, scost_tag in IHa. destruct (IHa W) as [A1 A2].
+      destruct (dec_T F a (set_tag c z) r0) as [n [[x r]|e]] eqn:Ea; cbn [fst snd] in *.
+      + specialize (A2 x r eq_refl).
+        pose proof (dec_consumes F dom OK a (set_tag c z) r0 x r) as Hc. unfold dec_L in Hc. rewrite (wf_tag F), Ea in Hc. specialize (Hc W eq_refl).
+        assert (L1 : lenN r <= lenN r0) by (unfold lenN; lia).
+        split; [nia|]. intros v rest H. inversion H; subst. nia.
+      + split; [nia|]. intros; discriminate.
+    - apply andb_true_iff in W as [Wa Wb].
+      destruct (ctag c =? k)%Z.
+      + destruct (IHa c bs Wa) as [A1 A2]. split; [nia|]. intros v rest H. specialize (A2 v rest H). nia.
+      + destruct (IHb c bs Wb) as [B1 B2]. split; [nia|]. intros v rest H. specialize (B2 v rest H). nia.
+    - cbn [fst snd]. split; [apply N.le_0_l|]. intros; discriminate.
   Qed.
 
   Theorem dec_T_alloc : forall l c bs, wf F l c = true ->
